@@ -29,8 +29,17 @@ Bounds
             NaN blocks/rows, all-NaN leaves (never stored), constant leaves, extremes planted
             on tile border pixels (half of the float leaves), leaves of very
             different scales (1e-3 .. 300, negative values).
+            Zero-extremum family (the sign boundary of "minimum and maximum finite data value":
+            the true extremum of a subtree is exactly 0 although no average of the data is):
+            36 float pyramids (depth 1..3) whose leaves are one-signed -- strictly positive data
+            with a single exactly-zero pixel in some leaves (true minimum 0), strictly negative
+            data with a single zero pixel (true maximum 0), clipped / count-like data with many
+            zeros, and pyramids mixing positive, negative and generic leaves -- plus 6 study
+            tilings of such images; 10 of them are always among the pyramids re-run with 2 and
+            4 workers.
   thorough: depth 2: 1500; depth 3: 250; depth 4: 8; integer: 300; study: 200 (up to 2100 px);
-            200 pyramids x workers {2, 3, 4}.
+            zero-extremum family: 400 pyramids + 40 study tilings; 200 (+40 zero-extremum)
+            pyramids x workers {2, 3, 4}.
 Trusted: astropy.io.fits header/data round trip; the XML attribute names DataMin / DataMax
 (omitted by wwt_data_formats when the value is 0).
 Not covered: leaves containing +-inf (the statement speaks of NaNs; np.nanmin of such a leaf
@@ -56,12 +65,42 @@ O_TERM = "rt/cascade/fits-range/terminates"
 O_SP = "rt/cascade/fits-range/serial-equals-parallel"
 
 KINDS = ["mixed", "mixed", "full", "blocks", "sparse", "single", "allundef", "constant"]
+# one-signed contents: the extremum towards zero is either bounded away from 0 or exactly 0
+SIGN_KINDS = ("pos", "poszero", "clip", "neg", "negzero", "negclip")
+POS_FAMILY = ["pos", "pos", "poszero", "poszero", "clip", "allundef"]
+NEG_FAMILY = ["neg", "neg", "negzero", "negzero", "negclip", "allundef"]
 RTOL = 2.4e-7
+
+
+def signed_array(mode, h, w, nprng, kind):
+    """One-signed float content.  'pos': values in [s, 2s) (s in {1e-3, 1, 300}), 0-40 % NaN;
+    'poszero': the same with ONE pixel exactly 0 whose aligned 2x2 block is otherwise finite (so
+    no 2x2 average is 0); 'clip': ~30 % of the pixels exactly 0 (clipped / count data);
+    'neg', 'negzero', 'negclip': the negated arrays (the zero is then the maximum)."""
+    dt = M.DTYPES[mode][0]
+    scale = float(nprng.choice([1.0, 1e-3, 300.0]))
+    a = (1.0 + nprng.random((h, w))) * scale
+    if kind in ("clip", "negclip"):
+        a[nprng.random((h, w)) < 0.3] = 0.0
+    a[nprng.random((h, w)) < float(nprng.uniform(0.0, 0.4))] = np.nan
+    if kind in ("poszero", "negzero"):
+        i, j = int(nprng.integers(0, h)), int(nprng.integers(0, w))
+        i0, j0 = i - i % 2, j - j % 2
+        blk = a[i0:i0 + 2, j0:j0 + 2]
+        blk[...] = (1.0 + nprng.random(blk.shape)) * scale
+        a[i, j] = 0.0
+    elif kind in ("pos", "neg") and not np.isfinite(a).any():
+        a[0, 0] = scale
+    if kind.startswith("neg"):
+        a = -a
+    return a.astype(dt)
 
 
 def leaf_array(spec, x, y, kind):
     nprng = np.random.default_rng([spec["seed"], x, y])
     mode = spec["mode"]
+    if kind in SIGN_KINDS:
+        return signed_array(mode, 256, 256, nprng, kind)
     if kind == "constant":
         dt = M.DTYPES[mode][0]
         v = nprng.integers(1, 100) if mode in M.INT_MODES else (nprng.random() - 0.5) * 10
@@ -123,7 +162,10 @@ def range_case(spec, workdir):
                     from toasty.study import tile_study_image
                     W, H = spec["width"], spec["height"]
                     nprng = np.random.default_rng(spec["seed"])
-                    image = M.random_array(spec["mode"], H, W, nprng, kind=spec.get("content", "mixed"))
+                    if spec.get("content") in SIGN_KINDS:
+                        image = signed_array(spec["mode"], H, W, nprng, spec["content"])
+                    else:
+                        image = M.random_array(spec["mode"], H, W, nprng, kind=spec.get("content", "mixed"))
                     builder = Builder(pio)
                     tiling = tile_study_image(Image.from_array(image.copy(), default_format="fits"), pio)
                     tiling.apply_to_imageset(builder.imgset)
@@ -208,6 +250,10 @@ def range_case(spec, workdir):
         shutil.rmtree(base, ignore_errors=True)
 
 
+def is_zero_family(spec):
+    return spec.get("content") in SIGN_KINDS or any(l[2] in SIGN_KINDS for l in spec.get("leaves", []))
+
+
 def batch(specs, workdir):
     return {"results": [range_case(s, workdir) for s in specs]}
 
@@ -263,20 +309,48 @@ def run(ctx):
                        "height": rng.choice([rng.randint(1, smax), 255, 256, 1025 if smax > 1100 else 300]),
                        "content": rng.choice(["mixed", "blocks", "sparse", "full", "single"]), "seed": rng.randrange(2 ** 31), "workers": 1, "filter": None})
     serial.append(mk("F32", 2, [[1, 2, "allundef"], [3, 3, "allundef"]]))   # nothing is ever stored
+    # zero-extremum family: the extremum of a subtree is exactly 0 (sign boundary of the data range)
+    nzero, nzstudy, nzpar = (400, 40, 40) if ctx.thorough else (36, 6, 10)
+    zero = []
+
+    def zleaves(depth, fam, p):
+        side = 2 ** depth
+        lv = [[x, y, rng.choice(fam)] for y in range(side) for x in range(side) if rng.random() < p]
+        if not any(k.endswith("zero") for _, _, k in lv):
+            x, y = rng.randrange(side), rng.randrange(side)
+            lv = [l for l in lv if l[:2] != [x, y]] + [[x, y, next(k for k in fam if k.endswith("zero"))]]
+        return sorted(lv)
+
+    for i in range(nzero):
+        depth = (1, 2, 2, 3)[i % 4] if i >= 4 else (1, 1, 2, 2)[i]
+        fam = [POS_FAMILY, NEG_FAMILY, POS_FAMILY, NEG_FAMILY, POS_FAMILY + NEG_FAMILY + KINDS][i % 5]
+        p = 1.0 if i < 4 else rng.choice([0.3, 0.6, 1.0])
+        zero.append(mk(rng.choice(["F32", "F64"]), depth, zleaves(depth, fam, p)))
+    for i in range(nzstudy):
+        zero.append({"via": "study", "mode": rng.choice(["F32", "F64"]), "width": rng.choice([rng.randint(2, smax), 300, 513]),
+                     "height": rng.choice([rng.randint(2, smax), 257, 600]), "content": ("poszero", "negzero", "clip")[i % 3],
+                     "seed": rng.randrange(2 ** 31), "workers": 1, "filter": None})
+    serial.extend(zero)
+    ctx.bound("zero-extremum family (float FITS): %d pyramids of depth 1..3 with one-signed leaves -- positive data with a single exactly-zero "
+              "pixel (true minimum 0), negative data with a single zero pixel (true maximum 0), clipped data with many zeros, and "
+              "pyramids mixing positive / negative / generic leaves -- and %d study tilings of such images; %d of them re-run in parallel" % (
+                  nzero, nzstudy, min(nzpar, len(zero))))
     ctx.bound("float FITS pyramids: depth 1 all 15 non-empty leaf subsets x {F32,F64}; depth 2: %d random subsets; depth 3: %d; depth 4: %d; "
               "integer FITS pyramids: %d; study tilings (tile_study_image -> Builder.cascade -> WTML), extents <= %d: %d" % (n2, n3, n4, nint, smax, nstudy))
     wlist = [2, 3, 4] if ctx.thorough else [2, 4]
     cand = list(serial)
     rng.shuffle(cand)
     parallel = []
-    for s in cand[:npar]:
+    zpar = zero[:4] + zero[-2:] + zero[4:nzpar - 2]      # fixed share of the zero-extremum family (pyramids and study tilings)
+    chosen = [s for s in cand if not any(s is z for z in zpar)][:npar] + zpar
+    for s in chosen:
         for w in wlist:
             p = dict(s)
             p["workers"] = w
             if rng.random() < 0.15 and p["via"] != "study":
                 p["filter"] = "all"
             parallel.append(p)
-    ctx.bound("%d of these pyramids re-run with workers in %r (own interpreter, 90 s watchdog), cards compared with the serial run" % (min(npar, len(cand)), wlist))
+    ctx.bound("%d of these pyramids re-run with workers in %r (own interpreter, 90 s watchdog), cards compared with the serial run" % (len(chosen), wlist))
     ctx.assume("astropy.io.fits returns the DATAMIN/DATAMAX cards and data that were written")
     ctx.note("leaves with +-inf are outside the explored domain")
 
@@ -313,7 +387,7 @@ def run(ctx):
         for f in res["fails"]:
             w = dict(spec)
             w.update(f.get("extra") or {})
-            report(f["obligation"], w, f["message"], family=spec["mode"] + ("/negative" if spec.get("negative") else ""))
+            report(f["obligation"], w, f["message"], family=spec["mode"] + ("/negative" if spec.get("negative") else "") + ("/zero-extremum" if is_zero_family(spec) else ""))
         runs.setdefault(base_key(spec), []).append((spec, res["cards"]))
 
     for job, (status, res, secs) in zip(jobs, results):
